@@ -1,6 +1,26 @@
 rc_target("c02_map", flavour="asan-dbg")
 rc_target("c02_libhash", flavour="asan")
-plan("C02", [T("c02_map", 4000, 50000), T("c02_libhash", 4000, 50000)], min_nt=200,
-     rule="stateful command sequences against a reference map",
-     technique="model-based property testing (rapidcheck)",
-     level_text="tbd", assumptions=[])
+plan("C02", [T("c02_map", 20000, 150000), T("c02_libhash", 30000, 200000)], min_nt=20000,
+     rule="stateful command sequences over two hash tables against a reference map with per-object destructor counters; "
+          "all-pairs equal=>equal-hash check plus the same map model over the library's own hash/equality pairs",
+     technique="model-based property testing (rapidcheck): generated command sequences and generated hash plans vs. a reference "
+               "std::map; every stored/absent key looked up and a full iteration compared after every command; destructor "
+               "calls counted per key/value object",
+     level_text="Generated search: per run tens of thousands of shrinking command sequences (<=60 commands: put, create, find+set, remove "
+                "with/without out-parameter, remove_element, clear, swap, move, clean_up+init, iterator walks and foreach with "
+                "generated per-element keep/delete decisions, unrepresentable init sizes) over two tables with 9 hash plans consistent with "
+                "equality (real, constant, id mod 3, end of the current slot array, all-ones end, zero, identity, same-slot/different-code, "
+                "generated table), 16 initial sizes and 4 destructor configurations; after every command the entry count, a lookup of every "
+                "id used so far through a pointer-distinct key, a full plain iteration and every key/value object's destructor count are "
+                "compared with the reference. A second target checks equal=>equal hash and equality itself for all pairs of 8-40 keys "
+                "per case under the six library hash/equality pairs (27 words of length 0-47 in mixed case at 8 alignments, 16 numbers, 16 "
+                "pointer values; the three string-like hashes must agree on the same bytes) and runs the map model over them. Sampling, "
+                "not proof: absence of a violation is not established; hash values are chosen per id, not exhaustively per layout.",
+     assumptions=["out-of-memory is fatal by design and not generated; init sizes whose slot array overflows size_t must fail before allocating",
+                  "a key's hash is a fixed function of its id for the whole case (the documented caller obligation); hash and equality callbacks are consistent",
+                  "tables are only used while initialised, except swap and clean_up which are documented for uninitialised/cleaned-up tables; move only into an uninitialised or cleaned-up table",
+                  "the table is not mutated from inside a foreach callback other than through its return code; remove_element only with an element just returned by find",
+                  "value objects are never re-used between puts; a value written through an element pointer replaces the old one without a destructor call (caller keeps the old one)",
+                  "the NULL key is treated as one more key (hash_table.c documents 'reasonable semantics for null keys')",
+                  "the private header hash_table_impl.h is read only to classify cases (wrap-around shifts, run lengths, resizes) and to aim hashes at the current end of the slot array; verdicts use the public API only",
+                  "byte-cursor equality functions are called through typed wrappers rather than through a cast function pointer"])
